@@ -397,8 +397,12 @@ def reproduce(ctx, binp, bad_events, extra_env=None):
     run_driver(ctx, binp, "replay", outp, infile=inp, extra_env=extra_env)
     again = read_ndjson(outp)
     confirmed = []
-    for e, a in zip(bad_events, again):
-        if a.get("out") == e.get("out"):
+    key = lambda e: digest([e.get("op"), {k: v for k, v in e.get("in", {}).items()}])
+    seen = {}
+    for a in again:
+        seen.setdefault(key(a), []).append(a.get("out"))
+    for e in bad_events:
+        if e.get("out") in seen.get(key(e), []):
             confirmed.append(e)
         else:
             ctx.notes.append("non-reproduced rejection dropped: %s" % json.dumps(e)[:300])
